@@ -18,7 +18,15 @@ def _stress(args):
     from mwparserfromhell.parser.builder import Builder
     seed, nthreads, per_thread = args[0]
     rng = random.Random(seed)
-    inputs = [[wikigen.any_input(rng, "small" if rng.random() < 0.8 else "large") for _ in range(per_thread)] for _ in range(nthreads)]
+    # a quarter of the inputs backtrack heavily (unclosed / crossed openers): failing routes are where tokenizers would share scratch state
+    from props.c05 import FAMILIES
+    fams = sorted(FAMILIES)
+
+    def one_input():
+        if rng.random() < 0.25:
+            return FAMILIES[rng.choice(fams)](rng.randint(3, 24))[:600]
+        return wikigen.any_input(rng, "small" if rng.random() < 0.8 else "large")
+    inputs = [[one_input() for _ in range(per_thread)] for _ in range(nthreads)]
     which = ["api" if i % 3 == 2 else ("py" if (i % 2 == 0 or st["c"] is None) else "c") for i in range(nthreads)]
     import mwparserfromhell
 
